@@ -51,7 +51,10 @@ S = ("scalar",)
 SCHEMA = ("obj", [
     ("T", ("obj", [
         ("a|1", ("obj", [("p", S), ("q/r", S)])),
-        ("b*", ("obj", [("p", S)])),
+        # keys literally equal to glob parts used in the pointer lists ("b*" under /T/b*, "*" under /T/b*/*), each with a
+        # sibling the glob matches too ("bc" resp. "p"): a literal-key lookup instead of the glob scan is visible
+        ("b*", ("obj", [("p", S), ("*", S)])),
+        ("bc", ("obj", [("p", S)])),   # an object: patterns continue below every key they match (no pointer goes through a scalar)
     ])),
     ("m~n", ("obj", [("p", S)])),
     ("L", ("arr",)),
@@ -63,7 +66,7 @@ SCALARS = [1, "x", None]
 TYPED_SCALARS = [1, True, 1.0, 0, False, "x", None]
 
 PATTERNS = [
-    "/T", "/T/*", "/T/a|1", "/T/a|1/p", "/T/*/p", "/T/a?1/*", "/T/b*", "/T/b*/p",
+    "/T", "/T/*", "/T/a|1", "/T/a|1/p", "/T/*/p", "/T/a?1/*", "/T/b*", "/T/b*/p", "/T/b*/*", "/T/b?",
     "/T/a|1/q~1r", "/T/*/q*",
     "/m~0n", "/m~0n/p", "/m*/p",
     "/*/p", "/*", "/[sL]", "/s",
@@ -113,7 +116,7 @@ _cache = {}
 
 
 def shape_docs(which):
-    """all 480 shapes of the schema (every combination of present/absent keys, array lengths 0..3);
+    """all shapes of the schema (2280) (every combination of present/absent keys, array lengths 0..3);
     'old': scalars 1, array [1,'x',None][:n];  'new': scalars 'x', array ['x',None,1][:n]"""
     if which not in _cache:
         if which == "old":
@@ -439,7 +442,7 @@ def cases(tier, seed, part, nparts):
 
     # layer A: fragment, all shapes x all shapes x all pointer lists (strided)
     total = na * no * nn
-    for idx in _strided(total, 1009 if quick else 53, part, nparts):
+    for idx in _strided(total, 27011 if quick else 1601, part, nparts):
         ai, rest = divmod(idx, no * nn)
         oi, fi = divmod(rest, nn)
         yield "A%x" % idx, dict(kind="fragment", old=olds[oi], fragment=news[fi], acl=acls[ai])
@@ -454,7 +457,7 @@ def cases(tier, seed, part, nparts):
 
     # layer C: patch, shapes x shapes, new document with other / with the same scalar values
     total = 2 * no * nn
-    for idx in _strided(total, 11 if quick else 1, part, nparts):
+    for idx in _strided(total, 257 if quick else 23, part, nparts):
         var, rest = divmod(idx, no * nn)
         oi, ni = divmod(rest, nn)
         yield "C%x" % idx, dict(kind="patch", old=olds[oi], new=(news if var == 0 else olds)[ni])
@@ -497,7 +500,7 @@ def cases(tier, seed, part, nparts):
 
     # layer F: filter, all shapes x all pointer lists; plus random
     total = na * no
-    for idx in _strided(total, 5 if quick else 1, part, nparts):
+    for idx in _strided(total, 29 if quick else 7, part, nparts):
         ai, oi = divmod(idx, no)
         yield "F%x" % idx, dict(kind="filter", doc=olds[oi], filters=acls[ai])
     n = 8000 if quick else 160000
@@ -551,8 +554,8 @@ def run(tier="quick", seed=0, part=0, nparts=1):
                 failures.append(dict(key=key, text=text, case=case, expected=_j(exp), actual=_j(act)))
     return dict(
         evaluations=ev, nontrivial=sorted(nontrivial), failures=failures, samples=samples,
-        rule="one schema {T:{'a|1':{p,'q/r'},'b*':{p}},'m~n':{p},L:[<=3],s}, scalars {1,'x',null}; %d pointer lists (1..2 of %d glob "
-             "patterns, ordered). fragment: every 1/%d-th of (all 480 shapes)^2 x all lists + random full-valued docs; patch: "
+        rule="one schema {T:{'a|1':{p,'q/r'},'b*':{p,'*'},bc:{p}},'m~n':{p},L:[<=3],s}, scalars {1,'x',null}; %d pointer lists (1..2 of %d glob "
+             "patterns, ordered). fragment: every 1/%d-th of (all %d shapes)^2 x all lists + random full-valued docs; patch: "
              "shapes^2 (2 value variants, 1/%d), all arrays^2 x 2 surroundings, random, and all pairs of 64 documents whose object "
              "members T/a|1/p and s range over {1,true,1.0,0,false,'x',null,absent} (JSON-type-strict comparison; arrays "
              "unchanged there) + random typed documents; filter: shapes x lists (1/%d) + random; "
@@ -560,8 +563,8 @@ def run(tier="quick", seed=0, part=0, nparts=1):
              "values). non-trivial: fragment = something "
              "selected and result differs from both old and fragment; patch = old != new, both non-empty; filter = selected, "
              "proper sub-document; chain = >= 2 generators with >= 2 selections. distinct by enumeration index / content hash"
-             % (len(acl_lists()), len(PATTERNS), 1009 if tier == "quick" else 53, 11 if tier == "quick" else 1,
-                5 if tier == "quick" else 1),
+             % (len(acl_lists()), len(PATTERNS), len(shape_docs("old")), 27011 if tier == "quick" else 1601, 257 if tier == "quick" else 23,
+                29 if tier == "quick" else 7),
         bound="objects 3 deep, arrays <= 3, 3 scalars, <= 2 glob patterns, <= 3 chained generators")
 
 
